@@ -4,7 +4,7 @@
 Regenerates Lean definitions (namespace Hb.Gen) of hashbrown's pure integer/bit functions
 from the *current* Rust source text.
 
-usage: python3-vt rust2lean.py --repo /repo --out /verif/lean/Hb/Gen/Pure.lean
+usage: python3-vt rust2lean.py --repo /repo --out /verif/lean/Hb/Gen/Pure.lean [--list] [--check]
 
 Anything in a translated body that is outside the accepted subset is a hard error
 (exit status 2, message naming the function and the offending token).
@@ -452,6 +452,8 @@ def main():
     ap.add_argument("--repo", required=True)
     ap.add_argument("--out", required=True)
     ap.add_argument("--list", action="store_true", help="print the generated declaration names")
+    ap.add_argument("--check", action="store_true",
+                    help="do not write; exit 1 if the file at --out differs from what would be generated")
     a = ap.parse_args()
     try:
         g = Generator(a.repo)
@@ -459,6 +461,15 @@ def main():
     except TranslateError as ex:
         sys.stderr.write("rust2lean: TRANSLATION ERROR: %s\n" % ex)
         sys.exit(2)
+    if a.check:
+        try:
+            cur = open(a.out, encoding="utf-8").read()
+        except OSError:
+            cur = None
+        if cur != text:
+            sys.stderr.write("rust2lean: %s is out of date with respect to %s\n" % (a.out, a.repo))
+            sys.exit(1)
+        sys.exit(0)
     os.makedirs(os.path.dirname(os.path.abspath(a.out)), exist_ok=True)
     with open(a.out, "w", encoding="utf-8") as fh:
         fh.write(text)
